@@ -114,6 +114,32 @@ class DatasetCellOp(Op):
         return cases
 
 
+class BeginRowOp(Op):
+    """which type cells the save_to check takes for the opening of a section (RE_BEGIN_CONTROL_ROW.match) against Model/SaveToRow.v"""
+    name = "B.begin_row"
+    imports = ["PX.Model.SaveToRow", "PX.Gen.Types"]
+    fn = "fun t => if begin_row (map fst CONTROL_ALIASES) t then [49%N] else [48%N]"
+    in_ty = "list N"
+    n_quick, n_thorough = 300, 3000
+
+    def generate(self, rng, n):
+        from pyxform.entities.entities_parsing import RE_BEGIN_CONTROL_ROW
+        from pyxform import aliases
+        words = ["begin", "Begin", "end", "begin ", "begin_", "begin\t", "begin\u00a0", "beginner", "begin  "]
+        ctl = list(aliases.control) + ["groups", "repeats", "loops", "group_x", "lgroups", "looped", "looped  group", "Group"]
+        tails = ["", " ", " over l", " l", "\n", "\n\n", "x", "_x", " over", "  l"]
+        others = ["select_one groups", "select_multiple repeat_opts", "select one group", "text", "integer", "begin", "end group", "rank loop", "select_one begin group"]
+        cases = []
+        for i in range(n):
+            if rng.random() < 0.2:
+                t = rng.choice(others)
+            else:
+                t = rng.choice(words) + ("" if rng.random() < 0.6 else rng.choice([" ", "_"])) + rng.choice(ctl) + rng.choice(tails)
+            exp = "1" if RE_BEGIN_CONTROL_ROW.match(t) else "0"
+            cases.append({"coq": cstr(t), "expected": exp, "desc": {"type": t}, "class": "section" if exp == "1" else "not a section", "nontrivial": t.startswith("begin")})
+        return cases
+
+
 class NamesOp(Op):
     name = "B.entity_names"
     imports = ["PX.Model.Entities"]
@@ -150,7 +176,7 @@ class NamesOp(Op):
 
 
 def ops(tier):
-    return [DecisionOp(), NamesOp(), DatasetCellOp()]
+    return [DecisionOp(), NamesOp(), DatasetCellOp(), BeginRowOp()]
 
 
 # ---- direct oracle ---------------------------------------------------------------------------------
